@@ -622,7 +622,7 @@ def check_property(prop, tier, seed, replay_path=None, only=None, keep=False, ve
             'wall_s': round(wall, 1),
             'violations': len(violations),
         }
-        EVD = os.environ.get('VF_EVIDENCE_DIR') or os.path.join(VERIF, 'evidence')
+        EVD = os.environ.get('VF_EVIDENCE_DIR') or (os.path.join(VERIF, 'evidence') if os.path.realpath(REPO) == '/repo' else '/tmp/vf_evidence_other_tree')   # evidence/ only ever describes /repo itself
         os.makedirs(EVD, exist_ok=True)
         json.dump(evidence, open(os.path.join(EVD, prop.id + '.json'), 'w'), indent=1)
         log('[%s] tier=%s queries=%d ok=%d fail=%d inconclusive=%d assertions=%d diff_iter=%d mismatches=%d wall=%.0fs solver=%.0fs peak=%dMB -> exit %d' % (
@@ -634,7 +634,7 @@ def check_property(prop, tier, seed, replay_path=None, only=None, keep=False, ve
         evidence = {'property_id': prop.id, 'tier': tier, 'seed': seed, 'level': 'other',
                     'coverage': {'explanation': 'build failed, nothing was checked: ' + str(e)[-1000:], 'evaluations': 0, 'distinct_nontrivial': 0, 'samples': []},
                     'wall_s': round(time.time() - t_start, 1), 'violations': 0}
-        EVD = os.environ.get('VF_EVIDENCE_DIR') or os.path.join(VERIF, 'evidence')
+        EVD = os.environ.get('VF_EVIDENCE_DIR') or (os.path.join(VERIF, 'evidence') if os.path.realpath(REPO) == '/repo' else '/tmp/vf_evidence_other_tree')   # evidence/ only ever describes /repo itself
         os.makedirs(EVD, exist_ok=True)
         json.dump(evidence, open(os.path.join(EVD, prop.id + '.json'), 'w'), indent=1)
         return 2
